@@ -274,6 +274,115 @@ func addParens(t *rapid.T, prog []*gen.Node) int {
 	return count
 }
 
+// TestDeepAndLong: the same round trip for trees far larger than the random generator draws: operator chains of
+// up to 400 operators (left-deep, right-deep under parentheses, alternating precedence levels), parentheses /
+// unary signs / list and map literals / calls nested up to 60 deep, blocks nested up to 40 deep, 500 statements.
+func TestDeepAndLong(t *testing.T) {
+	ops := []string{"+", "*", "-", "==", "&&", "/", "<", "||", "%", "!=", ">=", "in"}
+	leaf := func(i int) *gen.Node {
+		switch i % 4 {
+		case 0:
+			return id("a")
+		case 1:
+			return gen.NInt(int64(i))
+		case 2:
+			return gen.NStr("s")
+		}
+		return gen.NFloat(0.5)
+	}
+	lays := []struct {
+		n string
+		l func() gen.Layout
+	}{{"minimal", func() gen.Layout { return gen.Minimal{} }}, {"spaced", func() gen.Layout { return gen.Spaced{} }}, {"choices", func() gen.Layout { return &gen.Choices{C: []int{3, 1, 4, 1, 5, 9, 2, 6}} }}}
+	n := 0
+	check := func(kind string, size int, prog []*gen.Node) {
+		prog = gen.FixAll(prog)
+		for _, ly := range lays {
+			roundTrip(t, "deep", gen.CloneProg(prog), ly.l(), ly.n)
+		}
+		evid.Case(fmt.Sprintf("deep/%s/%d", kind, size), true, "deep-and-long/"+kind)
+		n++
+	}
+	for _, ln := range []int{2, 5, 16, 31, 32, 33, 64, 65, 100, 128, 129, 256, 257, 400} {
+		// left-deep with cycling operators: precedence decides the shape
+		e := leaf(0)
+		for i := 1; i <= ln; i++ {
+			e = gen.NBin(ops[i%len(ops)], e, leaf(i))
+		}
+		check("mixed-chain", ln, []*gen.Node{gen.NSet("x", e)})
+		// one operator, left-deep
+		for _, op := range []string{"+", "-", "&&", "=="} {
+			e = leaf(0)
+			for i := 1; i <= ln; i++ {
+				e = gen.NBin(op, e, leaf(i))
+			}
+			check("left-"+op, ln, []*gen.Node{gen.NSet("x", e)})
+		}
+		// right-deep: needs a parenthesis at every level
+		e = leaf(ln)
+		for i := ln - 1; i >= 0 && ln <= 130; i-- {
+			e = gen.NBin("-", leaf(i), e)
+		}
+		if ln <= 130 {
+			check("right-deep", ln, []*gen.Node{gen.NSet("x", e)})
+		}
+		// many statements, many arguments, many elements
+		var stmts []*gen.Node
+		var args []*gen.Node
+		for i := 0; i < ln; i++ {
+			stmts = append(stmts, gen.NSet("v", leaf(i)))
+			args = append(args, leaf(i))
+		}
+		check("statements", ln, stmts)
+		check("arguments", ln, []*gen.Node{gen.NCall("f", args...), gen.NSet("l", gen.NList(gen.CloneProg(args)...))})
+	}
+	for _, d := range []int{2, 8, 15, 16, 17, 31, 32, 33, 48, 60} {
+		var e *gen.Node
+		for kind := 0; kind < 6; kind++ {
+			e = id("a")
+			for i := 0; i < d; i++ {
+				switch kind {
+				case 0:
+					e = gen.NParen(e)
+				case 1:
+					e = gen.NUnary([]string{"-", "!", "+"}[i%3], gen.NParen(e))
+				case 2:
+					e = gen.NList(gen.NInt(1), e)
+				case 3:
+					e = gen.NMap(gen.NStr("k"), e)
+				case 4:
+					e = gen.NCall("f", e, gen.NInt(int64(i)))
+				default:
+					e = gen.NBin([]string{"*", "+"}[i%2], gen.NInt(int64(i)), gen.NParen(e))
+				}
+			}
+			check(fmt.Sprintf("nest-%d", kind), d, []*gen.Node{gen.NSet("x", e)})
+		}
+		// blocks
+		body := []*gen.Node{gen.NSet("z", gen.NInt(1))}
+		for i := 0; i < d && d <= 40; i++ {
+			switch i % 3 {
+			case 0:
+				body = []*gen.Node{gen.NIf([]*gen.Node{id("a")}, [][]*gen.Node{body}, []*gen.Node{gen.NSet("e", gen.NInt(int64(i)))}, true)}
+			case 1:
+				body = []*gen.Node{gen.NForIn("q", id("l"), body)}
+			default:
+				body = []*gen.Node{gen.NFor(nil, id("a"), nil, body)}
+			}
+		}
+		if d <= 40 {
+			check("blocks", d, body)
+		}
+		// index paths
+		ix := make([]*gen.Node, d)
+		for i := range ix {
+			ix[i] = gen.NInt(int64(i))
+		}
+		check("index-path", d, []*gen.Node{gen.NSet("x", gen.NIndex(id("a"), ix...)), gen.NAssign("=", []*gen.Node{gen.NIndex(id("a"), gen.CloneProg(ix)...)}, []*gen.Node{gen.NInt(1)})})
+	}
+	evid.Exhaustive("chains up to 400 operators, nesting up to 60, blocks up to 40, x 3 layouts", n)
+}
+
 func TestRedundantParens(t *testing.T) {
 	p := gen.ProfileSyntax()
 	rk.Check(t, "parens", 2, evid.Scale(2500, 30000), func(t *rapid.T) {
